@@ -222,11 +222,11 @@ def run():
     print(f"[*] Checking for TLS traffic on these ports: {server_ports}")
 
     for ts, buf in pcap_reader:
-        packet = Packet(buf, float(ts))  # dpkt yields Decimal timestamps for nanosecond pcap files
-
         if ts == -1:
             keylog.extend(keylog_reader.get_keys_from_string(buf.decode('ascii')))  # adds secrets from decryption secret block to keylog
             continue
+
+        packet = Packet(buf, float(ts))  # dpkt yields Decimal timestamps for nanosecond pcap files
 
         if packet.tcp_packet:
             if len(packet.tls_data) == 0:
